@@ -39,6 +39,7 @@ var (
 	stallTimeout = 3 * time.Second
 	watchdog     = 10 * time.Second
 	timeouts     atomic.Int64 // relay runs that never returned (their goroutines may still spin)
+	unscheduledTicks atomic.Int64 // runs repeated because the real flush ticker fired outside the schedule
 )
 
 // ---------------------------------------------------------------- bytes tokens
@@ -106,8 +107,28 @@ type gconn struct {
 	cwCh      chan struct{}
 	grants    chan struct{}
 	arrivals  atomic.Int64
+	returns   atomic.Int64 // Reads that have returned
+	kind      string       // cw | same | split | none: what the relay is handed for this side
+	dataReads atomic.Int64 // Reads that returned n > 0
+	tailOut   atomic.Bool  // a Read has returned the tail
+	wReturned atomic.Int64 // Writes that have returned (accepted or refused)
+	wRefused  atomic.Bool  // a Write was refused
+	writerClosed bool      // the relay called Close on the WRITER object of a wrapper (never in the code as built)
 	granted   int64
 	free      atomic.Bool // gating abandoned (after a stall): Reads no longer wait
+
+	// slow sink: the next accepted Write stays in progress, holding a REFERENCE to the caller's
+	// slice; the bytes are read from it only when the scheduler lets the Write complete
+	armHold     bool
+	held        *heldWrite
+	watch       bool // record Writes that arrive outside the windows in which the schedule expects one
+	expectWrite bool
+	tainted     bool
+}
+
+type heldWrite struct {
+	p       []byte
+	release chan struct{}
 }
 
 func newConn(name string, chunks [][]byte, tail string, fused bool, wfail int, cot bool, datagram bool) *gconn {
@@ -130,8 +151,21 @@ func (c *gconn) exhausted() bool {
 	return len(c.chunks) == 0
 }
 
-func (c *gconn) Read(p []byte) (int, error) {
+func (c *gconn) Read(p []byte) (_ int, _ error) {
 	c.arrivals.Add(1)
+	defer c.returns.Add(1)
+	return c.read(p)
+}
+
+func (c *gconn) read(p []byte) (n int, err error) {
+	defer func() {
+		if n > 0 {
+			c.dataReads.Add(1)
+		}
+		if err != nil {
+			c.tailOut.Store(true)
+		}
+	}()
 	c.mu.Lock()
 	if c.closed {
 		c.mu.Unlock()
@@ -183,30 +217,86 @@ func (c *gconn) Read(p []byte) (int, error) {
 		}
 		return n, nil
 	}
-	n := copy(p, c0[:len(p)])
+	n = copy(p, c0[:len(p)])
 	c.chunks[0] = c0[len(p):]
 	return n, nil
 }
 
-func (c *gconn) Write(p []byte) (int, error) {
+func (c *gconn) Write(p []byte) (n int, err error) {
+	defer func() {
+		if err != nil {
+			c.wRefused.Store(true)
+		}
+		c.wReturned.Add(1)
+	}()
 	c.mu.Lock()
-	defer c.mu.Unlock()
 	if c.closed || c.cw {
 		c.bad = true
+		c.mu.Unlock()
 		return 0, net.ErrClosed
 	}
 	k := c.nw
 	c.nw++
 	if k == c.wfail || (c.cot && c.tailSeen) {
 		c.wfEnv = true
+		c.mu.Unlock()
 		return 0, errWrite
 	}
+	if c.watch && !c.expectWrite {
+		c.tainted = true
+	}
+	if c.armHold {
+		c.armHold = false
+		h := &heldWrite{p: p, release: make(chan struct{})}
+		c.held = h
+		c.mu.Unlock()
+		<-h.release
+		c.mu.Lock()
+		c.store(p) // a sink under back-pressure reads the caller's buffer late
+		c.held = nil
+		c.mu.Unlock()
+		return len(p), nil
+	}
+	c.store(p)
+	c.mu.Unlock()
+	return len(p), nil
+}
+
+func (c *gconn) store(p []byte) {
 	if c.datagram {
 		c.dgrams = append(c.dgrams, append([]byte(nil), p...))
 	} else {
 		c.stream = append(c.stream, p...)
 	}
-	return len(p), nil
+}
+
+func (c *gconn) arm(on bool)      { c.mu.Lock(); c.armHold = on; c.mu.Unlock() }
+func (c *gconn) expect(on bool)   { c.mu.Lock(); c.expectWrite = on; c.mu.Unlock() }
+func (c *gconn) setWatch(on bool) { c.mu.Lock(); c.watch = on; c.mu.Unlock() }
+func (c *gconn) isHeld() bool     { c.mu.Lock(); defer c.mu.Unlock(); return c.held != nil }
+func (c *gconn) isTainted() bool  { c.mu.Lock(); defer c.mu.Unlock(); return c.tainted }
+
+// submitted = bytes handed to Write so far (delivered or still in progress)
+func (c *gconn) submitted() int {
+	c.mu.Lock()
+	defer c.mu.Unlock()
+	n := len(c.stream)
+	if c.held != nil {
+		n += len(c.held.p)
+	}
+	return n
+}
+
+// releaseHeld lets the Write in progress complete; false if there is none.
+func (c *gconn) releaseHeld() bool {
+	c.mu.Lock()
+	h := c.held
+	c.mu.Unlock()
+	if h == nil {
+		return false
+	}
+	close(h.release)
+	return waitUntil(func() bool { return !c.isHeld() }, stallTimeout)
 }
 
 func (c *gconn) CloseWrite() error {
@@ -232,6 +322,75 @@ func (c *gconn) Close() error {
 func (c *gconn) isCW() bool     { c.mu.Lock(); defer c.mu.Unlock(); return c.cw }
 func (c *gconn) isClosed() bool { c.mu.Lock(); defer c.mu.Unlock(); return c.closed }
 func (c *gconn) streamLen() int { c.mu.Lock(); defer c.mu.Unlock(); return len(c.stream) }
+
+// ---- endpoint kinds: what the relay is handed for a side
+
+// closeOnly: a transport connection with Close but no CloseWrite (websocket / KCP / QUIC style).
+// Close on it closes the whole connection, both directions.
+type closeOnly struct{ g *gconn }
+
+func (c closeOnly) Read(p []byte) (int, error)  { return c.g.Read(p) }
+func (c closeOnly) Write(p []byte) (int, error) { return c.g.Write(p) }
+func (c closeOnly) Close() error {
+	c.g.mu.Lock()
+	c.g.writerClosed = true
+	c.g.mu.Unlock()
+	return c.g.Close()
+}
+
+type readSide struct{ g *gconn }
+
+func (r readSide) Read(p []byte) (int, error) { return r.g.Read(p) }
+
+// writeSideCloser: a separate writer object with Close (closing it ends the write half only).
+type writeSideCloser struct{ g *gconn }
+
+func (w writeSideCloser) Write(p []byte) (int, error) { return w.g.Write(p) }
+func (w writeSideCloser) Close() error {
+	w.g.mu.Lock()
+	w.g.writerClosed = true
+	w.g.mu.Unlock()
+	return w.g.CloseWrite()
+}
+
+type writeOnly struct{ g *gconn }
+
+func (w writeOnly) Write(p []byte) (int, error) { return w.g.Write(p) }
+
+// endpoint builds the object handed to the relay exactly as the production callers do:
+// mapping/base.go, target_handler.go createTunnelRWC and socks5_tunnel.go all call
+// iocopy.NewReadWriteCloser(tunnelReader, tunnelWriter, closeFn) with reader and writer being the same
+// transport connection and closeFn closing it.
+func endpoint(g *gconn) io.ReadWriteCloser {
+	closeFn := func() error { return g.Close() }
+	var rwc io.ReadWriteCloser
+	var err error
+	switch g.kind {
+	case "same":
+		conn := closeOnly{g}
+		rwc, err = iocopy.NewReadWriteCloser(conn, conn, closeFn)
+	case "split":
+		rwc, err = iocopy.NewReadWriteCloser(readSide{g}, writeSideCloser{g}, closeFn)
+	case "none":
+		rwc, err = iocopy.NewReadWriteCloser(readSide{g}, writeOnly{g}, closeFn)
+	default:
+		return g
+	}
+	if err != nil {
+		panic(err)
+	}
+	return rwc
+}
+
+// loopLeft: the goroutine copying src -> sink has left its loop (needed for sinks on which no
+// half-close is observable): the source has returned its tail and every chunk read has been through
+// Write, or a Write was refused.
+func loopLeft(src, sink *gconn) bool {
+	if sink.wRefused.Load() {
+		return true
+	}
+	return src.tailOut.Load() && src.dataReads.Load() == sink.wReturned.Load() && !sink.isHeld()
+}
 
 // udpOnly hides CloseWrite: a UDP socket has no half-close.
 type udpOnly struct{ c *gconn }
@@ -268,6 +427,16 @@ func (s *sched) stall() {
 	// a goroutine did not come back: stop gating so that the run can still end (or time out)
 	for _, c := range s.conns {
 		c.free.Store(true)
+		c.arm(false)
+		c.mu.Lock()
+		if c.held != nil {
+			select {
+			case <-c.held.release:
+			default:
+				close(c.held.release)
+			}
+		}
+		c.mu.Unlock()
 		for i := 0; i < 1<<12; i++ {
 			select {
 			case c.grants <- struct{}{}:
@@ -277,23 +446,59 @@ func (s *sched) stall() {
 	}
 }
 
-// grant lets the goroutine reading c take one Read and waits until that loop iteration is over.
-func (s *sched) grant(c *gconn, finished func() bool) {
+// grantOne lets the goroutine reading c take one Read (false: stalled or the direction is over).
+func (s *sched) grantOne(c *gconn, finished func() bool) bool {
 	if s.stalls > 0 {
-		return
+		return false
 	}
 	if !waitUntil(func() bool { return c.arrivals.Load() > c.granted || finished() }, stallTimeout) {
 		s.stall()
-		return
+		return false
 	}
 	if finished() {
-		return
+		return false
 	}
 	c.granted++
 	c.grants <- struct{}{}
-	if !waitUntil(func() bool { return c.arrivals.Load() > c.granted || finished() }, stallTimeout) {
+	return true
+}
+
+// waitIter waits until the loop iteration that took the last granted Read is over (the goroutine
+// is back in Read or has left its loop) or until `also` holds.
+func (s *sched) waitIter(c *gconn, finished func() bool, also func() bool) {
+	if !waitUntil(func() bool { return c.arrivals.Load() > c.granted || finished() || (also != nil && also()) }, stallTimeout) {
 		s.stall()
 	}
+}
+
+// grant = one uninterrupted loop iteration.
+func (s *sched) grant(c *gconn, finished func() bool) {
+	if s.grantOne(c, finished) {
+		s.waitIter(c, finished, nil)
+	}
+}
+
+// grantHeld: one loop iteration whose Write on `sink` stays in progress (if it issues one).
+func (s *sched) grantHeld(c, sink *gconn, finished func() bool) {
+	sink.arm(true)
+	if s.grantOne(c, finished) {
+		s.waitIter(c, finished, sink.isHeld)
+	}
+	if !sink.isHeld() {
+		sink.arm(false)
+	}
+}
+
+// complete lets the Write in progress on `sink` return and waits for the rest of that iteration.
+func (s *sched) complete(c, sink *gconn, finished func() bool) {
+	if s.stalls > 0 || !sink.isHeld() {
+		return
+	}
+	if !sink.releaseHeld() {
+		s.stall()
+		return
+	}
+	s.waitIter(c, finished, nil)
 }
 
 func errKind(err error) string {
@@ -339,6 +544,7 @@ func runRelay(f func() *iocopy.Result, returned *atomic.Bool) chan relayRes {
 // ---------------------------------------------------------------- TCP
 
 type epSpec struct {
+	kind   string
 	tail   string
 	fused  bool
 	wfail  int
@@ -356,6 +562,11 @@ func stepsFor(chunks [][]byte) int {
 
 func parseEP(t []string) (epSpec, []string, error) {
 	var e epSpec
+	e.kind = "cw"
+	if len(t) > 0 && (t[0] == "cw" || t[0] == "same" || t[0] == "split" || t[0] == "none") {
+		e.kind = t[0]
+		t = t[1:]
+	}
 	if len(t) < 5 {
 		return e, nil, errors.New("short endpoint")
 	}
@@ -405,18 +616,55 @@ func runTCP(toks []string) (string, error) {
 	}
 	A := newConn("A", ea.chunks, ea.tail, ea.fused, ea.wfail, ea.cot, false)
 	B := newConn("B", eb.chunks, eb.tail, eb.fused, eb.wfail, eb.cot, false)
+	A.kind, B.kind = ea.kind, eb.kind
 	var returned atomic.Bool
-	ch := runRelay(func() *iocopy.Result { return iocopy.Bidirectional(A, B, nil) }, &returned)
+	connA, connB := endpoint(A), endpoint(B)
+	ch := runRelay(func() *iocopy.Result { return iocopy.Bidirectional(connA, connB, nil) }, &returned)
 	s := &sched{conns: []*gconn{A, B}}
-	finAB := func() bool { return B.isCW() || returned.Load() }
-	finBA := func() bool { return A.isCW() || returned.Load() }
+	// a direction is over when its half-close reached the sink; for a sink on which no half-close is
+	// observable: when the goroutine has left its loop (plus a moment for what it does on the way out)
+	settled := map[*gconn]bool{}
+	fin := func(src, sink *gconn) bool {
+		if sink.isCW() || returned.Load() {
+			return true
+		}
+		if sink.kind != "cw" && loopLeft(src, sink) {
+			if !settled[sink] {
+				settled[sink] = true
+				time.Sleep(300 * time.Microsecond)
+			}
+			return true
+		}
+		return false
+	}
+	finAB := func() bool { return fin(A, B) }
+	finBA := func() bool { return fin(B, A) }
 	for _, t := range sc {
-		if t == 'a' {
-			s.grant(A, finAB)
-		} else {
-			s.grant(B, finBA)
+		switch t {
+		case 'a':
+			if !B.isHeld() {
+				s.grant(A, finAB)
+			}
+		case 'b':
+			if !A.isHeld() {
+				s.grant(B, finBA)
+			}
+		case 'A': // slow sink B: the Write of this iteration stays in progress
+			if !B.isHeld() {
+				s.grantHeld(A, B, finAB)
+			}
+		case 'B':
+			if !A.isHeld() {
+				s.grantHeld(B, A, finBA)
+			}
+		case 'x':
+			s.complete(A, B, finAB)
+		case 'y':
+			s.complete(B, A, finBA)
 		}
 	}
+	s.complete(A, B, finAB)
+	s.complete(B, A, finBA)
 	for i := 0; i < stepsFor(ea.chunks) && !finAB(); i++ {
 		s.grant(A, finAB)
 	}
@@ -430,7 +678,7 @@ func runTCP(toks []string) (string, error) {
 		}
 		r := rr.r
 		return fmt.Sprintf("ret 1 toB %s toA %s wfB %s wfA %s bad %s cwB %s cwA %s cl %s sent %d recv %d serr %s rerr %s",
-			vc.Hex(B.stream), vc.Hex(A.stream), b01(B.wfEnv), b01(A.wfEnv), b01(A.bad || B.bad), b01(B.cw), b01(A.cw),
+			vc.Hex(B.stream), vc.Hex(A.stream), b01(B.wfEnv), b01(A.wfEnv), b01(A.bad || B.bad || A.writerClosed || B.writerClosed), b01(B.cw), b01(A.cw),
 			b01(A.closed && B.closed), r.BytesSent, r.BytesReceived, errKind(r.SendError), errKind(r.ReceiveError)), nil
 	case <-time.After(watchdog):
 		timeouts.Add(1)
@@ -580,23 +828,113 @@ func runUDP(toks []string) (string, error) {
 		tchunks = append(tchunks, rest)
 	}
 
+	hasHold := strings.ContainsAny(sc, "U")
+	var obs string
+	for attempt := 0; attempt < 5; attempt++ {
+		var tainted bool
+		obs, tainted = execUDP(evs, dgs, utail, tchunks, ttail, tfused, sc)
+		// the real 20 ms ticker fired outside the windows of the schedule before a scheduled slow write:
+		// the run did not execute the schedule of the case; run it again
+		if !(tainted && hasHold) {
+			break
+		}
+		unscheduledTicks.Add(1)
+	}
+	return obs, nil
+}
+
+const (
+	halfFullMark = 128 * 1024 // `batchPos > batchBufSize/2`
+	udpReadBuf   = 65536
+)
+
+func execUDP(evs []uev, dgs [][]byte, utail string, tchunks [][]byte, ttail string, tfused bool, sc string) (string, bool) {
 	U := newConn("U", dgs, utail, false, -1, false, true)
 	T := newConn("T", tchunks, ttail, tfused, -1, false, false)
+	T.setWatch(true)
 	var returned atomic.Bool
 	ch := runRelay(func() *iocopy.Result { return iocopy.UDP(udpOnly{U}, T, nil) }, &returned)
 	s := &sched{conns: []*gconn{U, T}}
 	finEnc := func() bool { return T.isCW() || returned.Load() }
 	finDec := func() bool { return U.isClosed() || returned.Load() }
 	evIdx := 0
-	expected := 0 // bytes the tunnel must have received once everything granted so far is flushed
-	stepU := func() {
+	expected := 0        // bytes the tunnel must have been handed once everything encoded so far is flushed
+	parkedBytes := 0     // encoding of the datagram the main loop holds while it waits for batchMu
+	parkedMain := false  // the main loop took a Read during a ticker write in progress and has not come back
+	holdsLeft := strings.Count(sc, "U")
+	tickerHeld := false  // the write in progress was issued by the flush goroutine
+	pendingBytes := func() int { return expected - T.submitted() }
+	window := func(f func()) { // a tunnel Write is expected while f runs
+		T.expect(true)
+		f()
+		T.expect(false)
+	}
+	// stepBlocked: somebody's tunnel Write is in progress (its caller holds batchMu)
+	stepBlocked := func() {
+		if evIdx < len(evs) && evs[evIdx].tick {
+			evIdx++ // the ticker is busy or waits for the lock
+			return
+		}
+		if !tickerHeld || parkedMain {
+			return // the main loop itself is blocked
+		}
+		if U.isClosed() {
+			parkedMain = true
+			return
+		}
+		if evIdx < len(evs) {
+			e := evs[evIdx]
+			evIdx++
+			n := len(e.d)
+			if n > udpReadBuf {
+				n = udpReadBuf
+			}
+			if !s.grantOne(U, finEnc) {
+				return
+			}
+			if n == 0 {
+				s.waitIter(U, finEnc, nil) // `continue`: straight back to Read
+				return
+			}
+			parkedBytes = 2 + n
+			// the Read returns; the main loop must now wait for batchMu (if it does not, it is back in Read at once)
+			waitUntil(func() bool { return U.returns.Load() >= U.granted }, stallTimeout)
+			if waitUntil(func() bool { return U.arrivals.Load() > U.granted }, 3*time.Millisecond) {
+				expected += parkedBytes // it did not wait
+				parkedBytes = 0
+			} else {
+				parkedMain = true
+			}
+			return
+		}
+		if utail == "hold" {
+			return
+		}
+		if s.grantOne(U, finEnc) {
+			waitUntil(func() bool { return U.returns.Load() >= U.granted }, stallTimeout)
+			parkedMain = true
+		}
+	}
+	stepU := func(hold bool) {
 		if finEnc() || s.stalls > 0 {
 			return
 		}
-		if U.isClosed() {
-			if !waitUntil(finEnc, stallTimeout) {
-				s.stall()
+		if hold {
+			holdsLeft--
+			if holdsLeft == 0 {
+				defer T.setWatch(false)
 			}
+		}
+		if T.isHeld() {
+			stepBlocked()
+			return
+		}
+		if U.isClosed() {
+			window(func() {
+				if !waitUntil(finEnc, stallTimeout) {
+					s.stall()
+				}
+			})
 			return
 		}
 		if evIdx < len(evs) {
@@ -604,28 +942,79 @@ func runUDP(toks []string) (string, error) {
 			evIdx++
 			if e.tick {
 				// "the ticker fires now": wait for the real 20 ms ticker to flush what is pending
-				if !waitUntil(func() bool { return T.streamLen() >= expected || finEnc() }, stallTimeout) {
-					s.stall()
-				}
+				window(func() {
+					if hold {
+						T.arm(true)
+					}
+					ok := waitUntil(func() bool { return T.isHeld() || pendingBytes() <= 0 || finEnc() }, stallTimeout)
+					if !T.isHeld() {
+						T.arm(false)
+					}
+					if T.isHeld() {
+						tickerHeld = true
+					}
+					if !ok {
+						s.stall()
+					}
+				})
 				return
 			}
 			n := len(e.d)
-			if n > 65536 {
-				n = 65536
+			if n > udpReadBuf {
+				n = udpReadBuf
 			}
+			willFlush := n > 0 && pendingBytes()+2+n > halfFullMark
 			if n > 0 {
 				expected += 2 + n
 			}
-			s.grant(U, finEnc)
+			if willFlush {
+				window(func() {
+					if hold {
+						s.grantHeld(U, T, finEnc)
+						tickerHeld = false
+					} else {
+						s.grant(U, finEnc)
+					}
+				})
+			} else {
+				s.grant(U, finEnc)
+			}
 			return
 		}
 		if utail == "hold" {
 			return
 		}
-		s.grant(U, finEnc)
+		window(func() {
+			if hold && pendingBytes() > 0 {
+				s.grantHeld(U, T, finEnc)
+				tickerHeld = false
+			} else {
+				s.grant(U, finEnc)
+			}
+		})
 	}
-	stepT := func() {
-		if finDec() || s.stalls > 0 {
+	stepW := func() {
+		if s.stalls > 0 || !T.isHeld() {
+			return
+		}
+		window(func() {
+			if !T.releaseHeld() {
+				s.stall()
+				return
+			}
+			if !tickerHeld || parkedMain {
+				// the writer was the main loop, or the main loop was waiting for the lock: it runs on
+				// to its next Read (or leaves the loop)
+				s.waitIter(U, finEnc, nil)
+			}
+			expected += parkedBytes
+			parkedBytes = 0
+			parkedMain = false
+			tickerHeld = false
+		})
+	}
+	stepT := func(hold bool) {
+		if finDec() || s.stalls > 0 || U.isHeld() {
 			return
 		}
 		if T.exhausted() && ttail == "hold" {
@@ -636,26 +1025,42 @@ func runUDP(toks []string) (string, error) {
 			}
 			return
 		}
-		s.grant(T, finDec)
-	}
-	for _, t := range sc {
-		if t == 'u' {
-			stepU()
+		if hold {
+			s.grantHeld(T, U, finDec)
 		} else {
-			stepT()
+			s.grant(T, finDec)
 		}
 	}
+	for _, t := range sc {
+		switch t {
+		case 'u':
+			stepU(false)
+		case 'U':
+			stepU(true)
+		case 't':
+			stepT(false)
+		case 'T':
+			stepT(true)
+		case 'w':
+			stepW()
+		case 'v':
+			s.complete(T, U, finDec)
+		}
+	}
+	T.setWatch(false)
+	stepW()
+	s.complete(T, U, finDec)
 	for j := 0; j < len(evs)+1; j++ {
-		stepU()
+		stepU(false)
 	}
 	for j := 0; j < stepsFor(tchunks) && !finDec(); j++ {
-		stepT()
+		stepT(false)
 	}
-	stepU()
+	stepU(false)
 	select {
 	case rr := <-ch:
 		if rr.panic != "" {
-			return rr.panic, nil
+			return rr.panic, T.isTainted()
 		}
 		r := rr.r
 		var sb strings.Builder
@@ -665,10 +1070,11 @@ func runUDP(toks []string) (string, error) {
 		}
 		fmt.Fprintf(&sb, " nread %d serr %s rerr %s sent %d recv %d", U.nreadDg, b01(r.SendError != nil), b01(r.ReceiveError != nil),
 			r.BytesSent, r.BytesReceived)
-		return sb.String(), nil
+		return sb.String(), T.isTainted()
 	case <-time.After(watchdog):
 		timeouts.Add(1)
-		return fmt.Sprintf("timeout stalls %d udp %d tun %d", s.stalls, len(U.dgrams), T.streamLen()), nil
+		s.stall()
+		return fmt.Sprintf("timeout stalls %d udp %d tun %d", s.stalls, len(U.dgrams), T.streamLen()), false
 	}
 }
 
@@ -788,5 +1194,5 @@ func main() {
 		genUDP(r, rng, *tier == "thorough")
 		r.flush(*workers)
 	}
-	out.Finish(*stats, map[string]any{"relay_timeouts": timeouts.Load()})
+	out.Finish(*stats, map[string]any{"relay_timeouts": timeouts.Load(), "reruns_unscheduled_tick": unscheduledTicks.Load()})
 }
